@@ -280,7 +280,10 @@ def _check_integers(repo, r3):
         is_d = ps.has(lambda k, t: k[0] == "==" and repr(dflt) in k[1:] and entry(i2b.params[1]) in k[1:] and t)
         if is_d:
             seen_d = True
-            if w not in minimal:
+            from ..intexpr import same_integer
+            # branch conditions on locals that hold integer terms (`full, rest = divmod(n, 8)` ... `if rest:`) restrict where this path's width applies
+            conds = [(ps.env[k[1]], t) for (k, t) in ps.facts if k[0] == "truth" and k[1] in ps.env and isinstance(ps.env[k[1]], tuple)]
+            if w not in minimal and not same_integer(w, minimal[0]) and not (conds and same_integer(w, minimal[0], conds)):
                 r3.fail_fn(i2b, i2b.node, "minimal width", "int_to_bytes' default width is %s, no longer (bit_length + 7) // 8" % S.show(w))
         elif w != ol:
             ok_w, shown = False, ps.ret
